@@ -27,11 +27,27 @@ def dep_hash():
     return h.hexdigest()
 
 def run(repo, force=False):
+    """definitions that do not elaborate are dropped (with their dependents) and the rest is checked again"""
+    exclude = {}
+    for _ in range(4):
+        res = run_once(repo, force, exclude)
+        if not res.get("def_errors"):
+            break
+        added = False
+        for unit, fn, msg in res["def_errors_at"]:
+            if fn not in exclude.setdefault(unit, {}):
+                exclude[unit][fn] = "translation does not elaborate: " + msg[:200]
+                added = True
+        if not added:
+            break
+    return res
+
+def run_once(repo, force, exclude):
     t0 = time.time()
-    text, report, theorems = extract_units.generate(repo)
+    text, report, theorems = extract_units.generate(repo, exclude)
     names = [t[0] for t in theorems]
     text += "\n" + "\n".join(f"#print axioms Rngs.ExtTie.{n}" for n in names) + "\n"
-    key = hashlib.sha256((text + dep_hash()).encode()).hexdigest()[:24]
+    key = hashlib.sha256((text + dep_hash() + "v2").encode()).hexdigest()[:24]
     os.makedirs(CACHE, exist_ok=True)
     cpath = os.path.join(CACHE, key + ".json")
     lock = open(os.path.join(CACHE, ".lock"), "w")
@@ -56,14 +72,30 @@ def run(repo, force=False):
             m = re.match(r"^theorem (\S+) :", l)
             if m:
                 th_line[i] = m.group(1)
+        # which definition a line belongs to
+        def_at, cur_ns = {}, None
+        for i, l in enumerate(lines, 1):
+            m = re.match(r"^namespace Ext\.(\w+)", l)
+            if m:
+                cur_ns = m.group(1)
+            m = re.match(r"^def (\w+)", l)
+            if m and cur_ns:
+                cur_def = (cur_ns, m.group(1))
+            if l.startswith("end Ext."):
+                cur_ns = None
+            if cur_ns and re.match(r"^(def |  )", l):
+                def_at[i] = cur_def if 'cur_def' in dir() else None
         errors = {}
         def_errors = []
+        def_errors_at = []
         for m in re.finditer(r"^[^\n:]*:(\d+):(\d+): error: (.*?)(?=^\S[^\n]*:\d+:\d+: (?:error|warning)|\Z)", out, re.S | re.M):
             ln, msg = int(m.group(1)), m.group(3).strip()
             if ln in th_line:
                 errors[th_line[ln]] = msg[:600]
             else:
                 def_errors.append((ln, msg[:300]))
+                if def_at.get(ln):
+                    def_errors_at.append((def_at[ln][0], def_at[ln][1], msg))
         axioms = {}
         for m in re.finditer(r"'Rngs\.ExtTie\.([^']+)' (depends on axioms: \[([^\]]*)\]|does not depend on any axioms)", out):
             axioms[m.group(1)] = [a.strip() for a in (m.group(3) or "").split(",") if a.strip()]
@@ -78,7 +110,7 @@ def run(repo, force=False):
                 err = ("definitions do not elaborate: " + str(def_errors[:2])) if def_errors else \
                       (f"axioms {ax}" if ax is not None else "no #print axioms output (file did not elaborate to the end)")
             res_th[name] = dict(ok=ok, props=props, fn=fn, statement=stmt, axioms=ax, error=err)
-        res = dict(key=key, theorems=res_th, report=report, def_errors=def_errors, forbidden=forbidden,
+        res = dict(key=key, theorems=res_th, report=report, def_errors=def_errors, def_errors_at=def_errors_at, forbidden=forbidden,
                    lean_rc=p.returncode, build_rc=b.returncode, cached=False, file=src,
                    lean_seconds=round(time.time() - t0, 1))
         json.dump(res, open(cpath, "w"), indent=1, default=str)
